@@ -73,9 +73,6 @@ func (w *World) onEmit(p *OutPkt) {
 	p.Src.Sent++
 	key := p.Src.addrStr + ">" + p.Dst
 	ep := w.byFlow[key]
-	if ep != nil && ep.CloseInvoked {
-		p.Post = true
-	}
 	fc := w.connFEC[p.Src.id]
 	fec := fc[0] > 0 && fc[1] > 0
 	logf := s.L.Logf
